@@ -272,6 +272,13 @@ class FSym(LSym):
             cb = [self.canonbytes.get(id(x[0])) for x in ents]
             if all(o is not None for o in cb) and all(o[0] is cb[0][0] and o[1] == k for k, o in enumerate(cb)):
                 self.put(a[0], FE(cb[0][0])); return None
+            # canonical bytes whose bit 255 was modified afterwards (sign bit or-ed / xor-ed in): from_bytes ignores it
+            if all(o is not None for o in cb[:31]) and all(o[0] is cb[0][0] and o[1] == k for k, o in enumerate(cb[:31])):
+                owner = [c for c in self.canon if c[0] is cb[0][0]]
+                if owner:
+                    d = self.ctx.resolve(self.P(ents[31][0]) - owner[0][1][31])
+                    if d.is_zero() or (all(cc % 128 == 0 for cc in d.t.values()) and self.is_bool(d.divexact(128))):
+                        self.put(a[0], FE(cb[0][0])); return None
         tot = 0
         for k in range(32):
             v = self.P(self.load(Ptr(src.r, src.o + k), 1))
